@@ -96,7 +96,10 @@ FnDesc(c, i) == LET s == SigOf(c, i) k == Mbr(c, i).k IN
 \* a data member: element + synthesized accessor functions
 DataDesc(c, i) == LET k == Mbr(c, i).k IN
   [c |-> c, i |-> i, setter |-> k # "cdata", static |-> k = "sdata", cm |-> Mbr(c, i).cm]
-DtorDesc(c, i) == [c |-> c, i |-> i, virtual |-> Mbr(c, i).k = "vdtor"]
+\* (the virtual role is claimed when the recorded destructor function is a declared one; whether an implicit
+\* destructor overriding a virtual one is flagged virtual is not part of the claim)
+DtorDesc(c, i) == [c |-> c, i |-> i, virtual |-> VirtualDtor(c), vclaim |-> DeclaresDtor(DtorOwner(c)),
+                   inherited |-> InheritsDtor(c), owner |-> DtorOwner(c)]
 
 Describe ==
   [fns |-> {FnDesc(e.c, e.i) : e \in {x \in RCallable : x.t = "m" /\ IsFn(Mbr(x.c, x.i).k)}},
